@@ -26,6 +26,8 @@ def stages(tier, seed, bins):
         kw.setdefault("ticks", 50000000)
         kw["dseed"] = rnd.randrange(1 << 30)
         kw["sseed"] = rnd.randrange(1 << 30)
+        if rnd.random() < 0.5:
+            kw["plabel"] = 1
         cases.append(kw)
 
     for i in range(120 if thorough else 12):
